@@ -314,7 +314,18 @@ func (r *resolver) ResolveType(t *parser.Type) (err error) {
 // The return value contains the target enum definition and the index of the **first**
 // included IDL or -1 if the enum is defined in the given AST.
 // When such an enum is not found, getEnum returns (nil, -1).
+// maxTypedefHops bounds the typedef hops followed when looking for an enum. A longer chain is in practice a cycle
+// (typedef A A), which ResolveTypedefs reports; without the bound the lookup never returned.
+const maxTypedefHops = 1 << 10
+
 func getEnum(ast *parser.Thrift, name string) (enum *parser.Enum, includeIndex int32) {
+	return getEnumWithin(ast, name, maxTypedefHops)
+}
+
+func getEnumWithin(ast *parser.Thrift, name string, hops int) (enum *parser.Enum, includeIndex int32) {
+	if hops <= 0 {
+		return nil, -1
+	}
 	c, exist := ast.Name2Category[name]
 	if !exist {
 		return nil, -1
@@ -331,12 +342,12 @@ func getEnum(ast *parser.Thrift, name string) (enum *parser.Enum, includeIndex i
 			panic(fmt.Errorf("expect %q to be an typedef in %q, not found", name, ast.Filename))
 		} else {
 			if r := x.Type.Reference; r != nil {
-				e, _ := getEnum(ast.Includes[r.Index].Reference, r.Name)
+				e, _ := getEnumWithin(ast.Includes[r.Index].Reference, r.Name, hops-1)
 				if e != nil {
 					return e, r.Index
 				}
 			}
-			return getEnum(ast, x.Type.Name)
+			return getEnumWithin(ast, x.Type.Name, hops-1)
 		}
 	}
 	return nil, -1
